@@ -99,17 +99,18 @@ func (e *Env) checkImmutable() error {
 }
 
 type Env struct {
-	repo   string
-	fset   *token.FileSet
-	pkg    *packages.Package
-	prog   *ssa.Program
-	spkg   *ssa.Package
-	te     *TypeEnv
-	con    *Contracts
-	funcs  map[string]*ssa.Function // key -> function
-	fnKey  map[*ssa.Function]string
-	posIdx map[*token.File]map[token.Pos][]ast.Node
-	files  map[*token.File]*ast.File
+	muHeaps []string
+	repo    string
+	fset    *token.FileSet
+	pkg     *packages.Package
+	prog    *ssa.Program
+	spkg    *ssa.Package
+	te      *TypeEnv
+	con     *Contracts
+	funcs   map[string]*ssa.Function // key -> function
+	fnKey   map[*ssa.Function]string
+	posIdx  map[*token.File]map[token.Pos][]ast.Node
+	files   map[*token.File]*ast.File
 }
 
 func loadEnv(repo string) (*Env, error) {
